@@ -27,11 +27,13 @@ def gen_params(rng, idx, tier="quick", force=None):
     P = {
         "idx": idx, "seed": rng.randrange(2 ** 31),
         "group": rng.random() < 0.7,
-        "n_parts": rng.choice([1, 2]),
+        "n_parts": rng.choice([1, 2, 3, 4]),
+        "slow_node": rng.choice([None, None, 0, 1, 2]),      # one broker answers late: per-leader lookups get staggered
+        "slow_by": rng.choice([0.02, 0.1, 0.4]),
         "policy": rng.choice(["earliest", "latest", "none"]),
         "isolation": iso,
         "committed": [rng.choice(["absent", "inside", "inside", "below_start", "beyond_end", "at_end", "at_start", "zero"])
-                      for _ in range(2)],
+                      for _ in range(4)],
         "n_batches": rng.choice([6, 12, 20]),
         "txn": iso == "read_committed" or rng.random() < 0.2,
         "trim_frac": rng.choice([0.0, 0.0, 0.3, 0.6]),
@@ -66,6 +68,9 @@ def run_history(P):
                                                              9: (0, P["offset_fetch_max_version"]),
                                                              1: (0, P["fetch_max_version"])})
     cl.create_topic(TOPIC, P["n_parts"])
+    if P.get("slow_node") is not None:
+        slow_host = f"broker{P['slow_node']}"
+        net.extra_delay = lambda direction, link: (P["slow_by"] if link is not None and link.host == slow_host else 0.0)
     truth0 = {}
     iso = 1 if P["isolation"] == "read_committed" else 0
     for p in range(P["n_parts"]):
